@@ -81,6 +81,8 @@ OrderWalk(res, i, rem, kind) ==
   LET y == Proj4(res[i].y[1])
       fromMax == IF res[i].c = 6 THEN kind # "pq" ELSE (kind = "pq" \/ res[i].c = 1)
       fromMaxL == IF res[i].c = 6 THEN ~(kind = "pq") ELSE fromMax IN
-  T(IF fromMaxL THEN \A x \in rem : x.r <= y.r ELSE \A x \in rem : x.r >= y.r, "iter_order")
+  \* (for last() the failure is a breach of the Iterator contract itself: last() must be what stepping yields last)
+  T(IF fromMaxL THEN \A x \in rem : x.r <= y.r ELSE \A x \in rem : x.r >= y.r,
+    IF res[i].c = 6 THEN "iter_last" ELSE "iter_order")
   \cup OrderWalk(res, i+1, IF res[i].c = 6 THEN {} ELSE rem \ {y}, kind)
 =============================================================================
